@@ -21,6 +21,7 @@ let rtz = function C.Ok t -> "I " ^ text_of_z (C.untag t) | C.Raise e -> "E " ^ 
 let handle = function
   (* tagged primitives on canonical tagged operands *)
   | ["t"; "neg"; a] -> tg (C.tagged_negate (C.tag (z a)))
+  | ["t"; "bitlen"; a] -> tg (C.tagged_bit_length (C.tag (z a)))
   | ["t"; "inv"; a] -> tg (C.tagged_invert (C.tag (z a)))
   | ["t"; "add"; a; c] -> tg (C.tagged_add (C.tag (z a)) (C.tag (z c)))
   | ["t"; "sub"; a; c] -> tg (C.tagged_subtract (C.tag (z a)) (C.tag (z c)))
